@@ -32,27 +32,50 @@ Fixpoint build_mmv (bits : list Z) (code p : Z) : list (Z * Z * Z) :=
     else (code, code + b - 1, p) :: build_mmv bs (2 * (code + b)) (p + b)
   end.
 
-(* first loop of Build (fills lookupTable[256], which no reachable code path reads: the fast
-   path of Decode needs nBits >= 8 and nBits <= 7 after every ReadBit/ReadBits).  Its only
-   observable effect is an index-out-of-range panic: for l < 8, for i < Bits[l]:
-   Values[p] needs p < len(Values) and lookupTable[(p<<(7-l)) + j], j < 2^(7-l), needs
-   (p+1)*2^(7-l) <= 256.  [lookup_ok] is true iff no index is out of range. *)
-Fixpoint lookup_ok_len (cnt : nat) (l p nvals : Z) : bool :=
+(* Build, validation loop (T.81 Annex C): Bits[l] >= 0, the canonical code of each length fits
+   (next + Bits[l] <= 2^(l+1)), and afterwards total <= len(Values); otherwise ErrInvalidDHT.
+   Returns the total number of codes. *)
+Fixpoint build_valid (bits : list Z) (l total next : Z) : option Z :=
+  match bits with
+  | [] => Some total
+  | b :: bs =>
+    if b <? 0 then None
+    else let next' := next + b in
+         if 2 ^ (l + 1) <? next' then None
+         else build_valid bs (l + 1) (total + b) (2 * next')
+  end.
+Definition table_valid (bits vals : list Z) : bool :=
+  match build_valid bits 0 0 0 with
+  | None => false
+  | Some total => total <=? zlen vals
+  end.
+
+(* Build, lookup-table loop (the table is dead: the fast path of Decode needs nBits >= 8 and
+   nBits <= 7 after every ReadBit/ReadBits).  Its only observable effect would be an
+   index-out-of-range panic: for l < 8, for i < Bits[l]: Values[p] needs p < len(Values) and
+   lookupTable[(canonical<<(7-l)) + j], j < 2^(7-l), needs (canonical+1)*2^(7-l) <= 256.
+   [lookup_ok] is true iff no index is out of range (JllProofsHuff: always, after validation). *)
+Fixpoint lookup_ok_len (cnt : nat) (l p canonical nvals : Z) : bool :=
   match cnt with
   | O => true
-  | S c => (p <? nvals) && ((p + 1) * 2 ^ (7 - l) <=? 256) && lookup_ok_len c l (p + 1) nvals
+  | S c => (p <? nvals) && ((canonical + 1) * 2 ^ (7 - l) <=? 256)
+           && lookup_ok_len c l (p + 1) (canonical + 1) nvals
   end.
-Fixpoint lookup_ok (bits : list Z) (l p nvals : Z) : bool :=
+Fixpoint lookup_ok (bits : list Z) (l p canonical nvals : Z) : bool :=
   match bits with
   | [] => true
   | b :: bs =>
     if 8 <=? l then true
-    else lookup_ok_len (Z.to_nat b) l p nvals && lookup_ok bs (l + 1) (p + Z.max 0 b) nvals
+    else lookup_ok_len (Z.to_nat b) l p canonical nvals
+         && lookup_ok bs (l + 1) (p + Z.max 0 b) (2 * (canonical + Z.max 0 b)) nvals
   end.
 
-(* BuildStandardHuffmanTable / Build : Panic when the lookup fill indexes out of range *)
+(* HuffmanTable.Build: Err when the validation fails (ErrInvalidDHT); Panic if the lookup
+   fill indexed out of range *)
 Definition build_table (bits vals : list Z) : outcome htable :=
-  if lookup_ok bits 0 0 (zlen vals) then Ok (mkHT bits vals (build_mmv bits 0 0)) else Panic.
+  if negb (table_valid bits vals) then Err
+  else if lookup_ok bits 0 0 0 (zlen vals) then Ok (mkHT bits vals (build_mmv bits 0 0))
+  else Panic.
 
 (* HuffmanDecoder.Decode, slow path (the only live one): bit-serial over lengths 1..16 *)
 Fixpoint decode_loop (mmv : list (Z * Z * Z)) (vals : list Z) (code : Z) (st : rstate)
@@ -257,6 +280,10 @@ Definition build_optimal (freqs : list Z) : outcome (list Z * list Z) :=
   obind (limit_all sizes_32_17 bits) (fun bits' =>
     let bits'' := remove_pseudo 33 bits' 32 in
     Ok (firstn 16 (skipn 1 bits''), opt_values cs)))).
-(* ... followed by table.Build() *)
-Definition build_optimal_table (freqs : list Z) : outcome htable :=
-  obind (build_optimal freqs) (fun bv => build_table (fst bv) (snd bv)).
+(* ... followed by `_ = table.Build()`: the error is dropped, a panic would not be *)
+Definition build_optimal_table (freqs : list Z) : outcome (list Z * list Z) :=
+  obind (build_optimal freqs) (fun bv =>
+    match build_table (fst bv) (snd bv) with
+    | Panic => Panic
+    | _ => Ok bv
+    end).
